@@ -49,7 +49,7 @@ class C11(Check):
                    'the must-be-zero clause is one-directional (the code may zero more, e.g. spline rejections and region growth)',
                    'output pixels within 1e-6 pixel (float32 grids: 1e-3 pixel) of a good input pixel are free (boundary band)',
                    'reproduction is asserted only >= 5 input pixels away from any bad pixel or edge, for noise-free inputs of period >= 60 px']
-    REQUIRED_COUNTERS = ('canary_sequences', 'reproduce_without_ivar', 'reproduce_integer_flux', 'reproduce_one_sided_windows', 'scaling_noisy_cases', 'scaling_without_ivar', 'tiny_flux_unit_cases', 'calls_1d', 'calls_2d', 'calls_no_ivar', 'must_be_zero_pixels', 'nonzero_ivar_pixels_interp_checked',
+    REQUIRED_COUNTERS = ('deredshift_integer_zfit_nonzero', 'good_stretches_shorter_than_the_spline_order', 'canary_sequences', 'reproduce_without_ivar', 'reproduce_integer_flux', 'reproduce_one_sided_windows', 'scaling_noisy_cases', 'scaling_without_ivar', 'tiny_flux_unit_cases', 'calls_1d', 'calls_2d', 'calls_no_ivar', 'must_be_zero_pixels', 'nonzero_ivar_pixels_interp_checked',
                          'allbad_cases', 'disjoint_grid_cases', 'reproduction_cases', 'scaling_cases', 'deredshift_cases',
                          'method_traditional', 'method_noconst', 'method_mean', 'method_damp', 'method_nothing', 'float32_cases',
                          'isolated_good_pixel_cases', 'multi_group_cases')
@@ -82,7 +82,7 @@ class C11(Check):
     # ------------------------------------------------------------------ gen
     def _mask(self, rng, g, n, pat=None):
         iv = g.uniform(1, 5, n)
-        pat = pat if pat is not None else rng.choice(['none', 'edges', 'runs', 'random', 'alternating', 'isolated', 'runs', 'single_pixels', 'tiny_weights'])
+        pat = pat if pat is not None else rng.choice(['none', 'edges', 'runs', 'random', 'alternating', 'isolated', 'runs', 'single_pixels', 'tiny_weights', 'islands'])
         if pat == 'edges':
             iv[:rng.randint(1, 20)] = 0
             iv[-rng.randint(1, 20):] = 0
@@ -111,6 +111,16 @@ class C11(Check):
                 if where == 'after_run':
                     iv[max(0, a - rng.randint(2, 12)):a] = 0
             iv[a:a + m] = iv.mean() * 10 ** g.uniform(-14, -11, m)
+        elif pat == 'islands':
+            # short stretches of 2-6 good pixels, each cut off on both sides by a run of 2-8 zero-weight pixels
+            a = rng.randint(10, 40)
+            for _ in range(rng.randint(1, 4)):
+                w1, m, w2 = rng.randint(2, 8), rng.randint(2, 6), rng.randint(2, 8)
+                if a + w1 + m + w2 >= n - 10:
+                    break
+                iv[a:a + w1] = 0
+                iv[a + w1 + m:a + w1 + m + w2] = 0
+                a += w1 + m + w2 + rng.randint(0, 30)
         elif pat == 'isolated':
             a = rng.randint(20, n - 20)
             iv[a - 6:a] = 0
@@ -171,8 +181,10 @@ class C11(Check):
                 pat = 'allbad'
             nl, gk = self._grid(rng, ll, dl)
             dt = 'f4' if cls == 'float32' else 'f8'
+            # the order of the fitted spline is the caller's choice (keyword nord, default 3)
+            kw = {'nord': rng.choice([2, 4, 4, 5])} if rng.random() < 0.3 else {}
             return {'kind': cls, 'll': ll.tolist(), 'fl': fl.tolist(), 'iv': None if cls == 'no_ivar' else iv.tolist(),
-                    'nl': nl.tolist(), 'method': meth, 'pattern': pat, 'grid': gk, 'dtype': dt}
+                    'nl': nl.tolist(), 'method': meth, 'pattern': pat, 'grid': gk, 'dtype': dt, 'kw': kw}
         if cls == 'stack2d':
             nspec = rng.randint(2, 4)
             n = rng.randint(220, 500)
@@ -245,6 +257,13 @@ class C11(Check):
             nobj = rng.randint(1, 4)
             ll = l0 + dl * np.arange(n)
             z = [rng.choice([rng.uniform(0.003, 0.05), rng.uniform(0.05, 0.3)]) for _ in range(nobj)]
+            zkind = rng.choice(['f8', 'f8', 'f4'])
+            if rng.random() < 0.15:
+                # whole-number redshifts held in an integer column (z = 0, 1, 2) on a coarser grid, so that the shifted feature stays on it
+                zkind = rng.choice(['i8', 'i4', 'i2', 'u1'])
+                dl = 1e-3
+                n = rng.randint(560, 700)
+                z = [rng.choice([0, 1, 1, 2]) for _ in range(nobj)]
             # feature position such that it stays inside the output grid after shifting
             feats = []
             for kz, zz in enumerate(z):
@@ -257,22 +276,22 @@ class C11(Check):
                     sh = np.log10(1 + zz) / dl
                     lo = int(sh) + 30
                 feats.append(rng.uniform(lo, n - 30))
-            return {'kind': cls, 'n': n, 'l0': l0, 'dl': dl, 'z': z, 'feat_pix': feats, 'loglam2d': rng.random() < 0.4,
+            return {'kind': cls, 'n': n, 'l0': l0, 'dl': dl, 'z': z, 'zkind': zkind, 'feat_pix': feats, 'loglam2d': rng.random() < 0.4,
                     'dead': rng.choice([None, 0, 1, 2, 1, 2]),
                     'method': rng.choice(['mean', 'traditional', 'nothing']), 'noise': rng.choice([0.0, 0.02])}
         raise KeyError(cls)
 
     # ------------------------------------------------------------------ run
-    def _c1f(self, ll, fl, nl, iv, meth):
+    def _c1f(self, ll, fl, nl, iv, meth, **extra):
         self.audit.begin()
         try:
             with warnings.catch_warnings():
                 warnings.simplefilter('ignore')
                 with np.errstate(all='ignore'):
                     if iv is None:
-                        r = self.SP2.combine1fiber(ll, fl, nl, aesthetics=meth)
+                        r = self.SP2.combine1fiber(ll, fl, nl, aesthetics=meth, **extra)
                     else:
-                        r = self.SP2.combine1fiber(ll, fl, nl, objivar=iv, aesthetics=meth)
+                        r = self.SP2.combine1fiber(ll, fl, nl, objivar=iv, aesthetics=meth, **extra)
         finally:
             ev = self.audit.end()
         if any(e[0].startswith('socket') for e in ev):
@@ -323,8 +342,14 @@ class C11(Check):
         nl = np.array(case['nl'], dtype=dt)
         iv0 = None if case['iv'] is None else np.array(case['iv'], dtype=dt)
         two_d = ll.ndim == 2
-        f, i = self._c1f(ll.copy(), fl.copy(), nl.copy(), None if iv0 is None else iv0.copy(), case['method'])
+        f, i = self._c1f(ll.copy(), fl.copy(), nl.copy(), None if iv0 is None else iv0.copy(), case['method'], **case.get('kw', {}))
         out.count('calls_2d' if two_d else 'calls_1d')
+        nord = case.get('kw', {}).get('nord', 3)
+        out.count('calls_with_spline_order_given', 'nord' in case.get('kw', {}))
+        if not two_d and iv0 is not None:
+            gd = np.concatenate([[0], (iv0 > 0).astype(int), [0]])
+            runs = np.diff(np.flatnonzero(np.diff(gd)))[::2]
+            out.count('good_stretches_shorter_than_the_spline_order', int(((runs > 2) & (runs < nord)).sum()))
         out.count('calls_no_ivar', iv0 is None)
         out.count('method_' + case['method'])
         out.count('float32_cases', dt == 'f4')
@@ -488,13 +513,18 @@ class C11(Check):
             out.count('dead_object_not_first', dead > 0)
         else:
             dead = None
-        z = np.array(case['z'])
+        zkind = case.get('zkind', 'f8')
+        z = np.array(case['z'], dtype=zkind)
+        zarg = z.copy()
+        out.count('deredshift_zfit_' + ('integer' if z.dtype.kind in 'iu' else zkind))
+        out.count('deredshift_integer_zfit_nonzero', z.dtype.kind in 'iu' and bool(np.any(z != 0)))
+        z = z.astype('f8')
         loglam = np.tile(ll, (nobj, 1)) if case['loglam2d'] else ll
         self.audit.begin()
         try:
             with warnings.catch_warnings():
                 warnings.simplefilter('ignore')
-                nf, niv, nll = self.SP1.preprocess_spectra(flux, ivar, loglam=loglam, zfit=z, newloglam=ll.copy(), aesthetics=case['method'])
+                nf, niv, nll = self.SP1.preprocess_spectra(flux, ivar, loglam=loglam, zfit=zarg, newloglam=ll.copy(), aesthetics=case['method'])
         finally:
             ev = self.audit.end()
         out.expect(nf.shape == (nobj, n) and niv.shape == (nobj, n), 'shape', 'preprocess_spectra shapes %s %s' % (nf.shape, niv.shape))
